@@ -27,7 +27,7 @@ import (
 var apiFiles = []treeFile{
 	{Name: "layouts/main", Src: "<h>@reserve(\"title\")</h><b>@reserve(\"content\")</b><p>100% %d %s %%</p>"},
 	{Name: "components/c", Src: "[{{ n }}:@slot]"},
-	{Name: "ok", Src: "@use(\"~main\")@insert(\"title\", \"T\")@insert(\"content\")@each(x in items)({{ x }}{{ loop.last ? \"\" : \",\" }})@end" +
+	{Name: "ok", Src: "@use(\"~main\")@insert(\"title\", who.upper() + items[0].str())@insert(\"content\")@each(x in items)({{ x }}{{ loop.last ? \"\" : \",\" }})@end" +
 		"@component(\"~c\", {n: who})@slot{{ who.upper() }}@end@end@end"},
 	{Name: "bad", Src: "PARTIAL-OUTPUT-MARKER {{ who }}\n{{ items[0] / 0 }} after"},
 	{Name: "err", Src: "<custom>error page 50% %v</custom>"},
@@ -37,6 +37,8 @@ var apiFiles = []treeFile{
 	{Name: "bad-in-layout", Src: "@use(\"~boom\")@insert(\"content\")PARTIAL-OUTPUT-MARKER insert@end"},
 	{Name: "bad-at-start", Src: "{{ items[0] / 0 }} PARTIAL-OUTPUT-MARKER never"},
 	{Name: "bad-in-loop", Src: "@each(x in items)PARTIAL-OUTPUT-MARKER {{ x }} {{ 6 / (3 - x) }}@end"},
+	{Name: "bad-in-slot", Src: "PARTIAL-OUTPUT-MARKER before @component(\"~c\", {n: 1})@slot in the slot {{ items[0] / 0 }} end@end@end after"},
+	{Name: "bad-in-insert", Src: "@use(\"~main\")@insert(\"title\", items[0] / 0)@insert(\"content\")PARTIAL-OUTPUT-MARKER body@end"},
 	{Name: "setvar", Src: "{{ total = 3 }}set:{{ total }}"},
 	{Name: "getvar", Src: "get:{{ total }}"},
 	{Name: "row1", Src: "row:{{ r.title }}"},
@@ -69,7 +71,7 @@ const fnMix = `|{{ items.join("-") }}|{{ items.reverse() }}|{{ items.slice(1) }}
 	`|{{ false.then("y", "n") }}|{{ {a: 1, b: [2, 3]} }}|@dump(items)`
 
 // the pages contain per cent signs: what Response writes is the page, byte for byte
-const okPage = "<h>T</h><b>(1,)(2,)(3)[Bo:BO]</b><p>100% %d %s %%</p>"
+const okPage = "<h>BO1</h><b>(1,)(2,)(3)[Bo:BO]</b><p>100% %d %s %%</p>"
 const customPage = "<custom>error page 50% %v</custom>"
 
 // apiRec is a struct type every call passes; apiDataN adds a value of a struct type no earlier call has used
